@@ -34,7 +34,8 @@ ASSUMPTIONS = ['pyg_base.sort orders the (key, row id) pairs as the model of C07
 CALL_TIMEOUT = 8
 D = datetime.datetime
 
-KEYS = [None, 0, 1, 2, 1.0, 2.0, 2.5, 'a', 'b', '', D(2020, 1, 1), D(2020, 1, 2, 12)]
+KEYS = [None, 0, 1, 2, 1.0, 2.0, 2.5, 'a', 'b', '', D(2020, 1, 1), D(2020, 1, 2, 12),
+        2 ** 53, 2 ** 53 + 1, float(2 ** 53)]     # neighbouring ints beyond float precision are distinct keys
 VALS = [None, 1, 2, 3, 0.5, 'p', 'q', D(2021, 5, 5)]
 
 
